@@ -65,7 +65,26 @@ def step_templates(cols):
         "join_pair": (2, lambda n: f".natural_join(b={E}, on=[({n[0]!r}, {n[1]!r})], jointype='left', check_all_common_keys_in_equi_spec=True)"),
         "concat": (2, lambda n: f".concat_rows(b=TableDescription(table_name='q', column_names=[{n[0]!r}, {n[1]!r}]), id_column=None)"),
         "concat_id": (1, lambda n: f".concat_rows(b=TableDescription(table_name='q', column_names={cols!r}), id_column={n[0]!r})"),
+        # two assignments with symbolic targets (n0, n1) AND symbolic columns read (n2, n3): decided against ORACLES below
+        "extend2": (4, lambda n: f".extend({{{n[0]!r}: '{n[2]} + 1', {n[1]!r}: '{n[3]} * 2'}})"),
+        "project2": (4, lambda n: f".project({{{n[0]!r}: '{n[2]}.max()', {n[1]!r}: '{n[3]}.min()'}}, group_by=[{c0!r}])"),
     }
+
+
+def _oracle_two_assignments(names, cols, group=None):
+    """C26 rules for a step {t0: f(u0), t1: f(u1)}: every column read is known; no assignment reads a column that ANOTHER assignment of
+    the same step produces (a column may update itself); a project does not change its grouping column"""
+    t0, t1, u0, u1 = names
+    ok = u0 in cols and u1 in cols and u0 != t1 and u1 != t0
+    if group is not None:
+        ok = ok and t0 != group and t1 != group
+    return ok
+
+
+ORACLES = {
+    "extend2": lambda names, cols: _oracle_two_assignments(names, cols),
+    "project2": lambda names, cols: _oracle_two_assignments(names, cols, group=cols[0]),
+}
 
 
 def harvested_literals():
@@ -86,6 +105,9 @@ class H(forksym.Harness):
         self.cols = list(self.pre.column_names)
         self.arity, self.tpl = step_templates(self.cols)[sname]
         self.vocab = list(dict.fromkeys(self.cols + ["g", "x", "y", "z"] + harvested_literals()))
+        if sname in ORACLES:
+            # four symbolic names: a small vocabulary keeps the equality patterns enumerable (two columns, one non-column, equal-to-earlier, fresh)
+            self.vocab = list(dict.fromkeys(self.cols[:2] + ["zz_other"]))
         self.fresh_src = f"TableDescription(table_name='d', column_names={self.cols!r})"
 
     def resolve(self, terms):
@@ -111,6 +133,8 @@ class H(forksym.Harness):
         terms = [z3.String(f"n{i}") for i in range(self.arity)]
         for t in terms:
             eng.assume(z3.Length(t) > 0)
+        if self.sname in ORACLES:
+            eng.assume(terms[0] != terms[1])  # two different targets (a dict literal cannot hold the same key twice)
         names = self.resolve(terms)
         step = self.tpl(names)
         res = []
@@ -123,6 +147,11 @@ class H(forksym.Harness):
             except Exception as e:
                 res.append(("rejected", type(e).__name__))
         info = {"names": names, "step": step, "on_prefix": res[0], "on_fresh_table": res[1]}
+        if self.sname in ORACLES:
+            want = ORACLES[self.sname](names, self.cols)
+            info["expected_by_rules"] = "accepted" if want else "rejected"
+            if (res[0][0] == "accepted") != want:
+                return False, info
         if res[0][0] != res[1][0]:
             return False, info
         if res[0][0] == "accepted" and res[0][1] != res[1][1]:
@@ -218,8 +247,8 @@ def run(tier):
     import multiprocessing as mp
 
     rep = Report(PROP, "other")
-    maxp = 400 if tier == "quick" else 5000
-    jobs = [(p, s, maxp) for p in PREFIXES for s in step_templates(["g", "x"])]
+    maxp = 1500 if tier == "quick" else 5000  # the largest template (three symbolic names) has ~1030 equality patterns: exhaustive in both tiers
+    jobs = [(p, s, max(maxp, 2000) if s in ORACLES else maxp) for p in PREFIXES for s in step_templates(["g", "x"])]
     with mp.get_context("fork").Pool(16) as pool:
         results = pool.map(_job, jobs, chunksize=2)
     tot = {"paths": 0, "discharged": 0, "cex": 0, "branch_queries": 0}
@@ -235,7 +264,8 @@ def run(tier):
         trunc += int(r["truncated"])
         for f in r["findings"][:3]:
             rep.violation({"property": PROP, "kind": "differential", "prefix": r["prefix"], **f},
-                          f"{r['id']}: step {f['step']} is {f['on_prefix']} on the prefix but {f['on_fresh_table']} on a fresh table with the same columns")
+                          f"{r['id']}: step {f['step']} is {f['on_prefix']} on the prefix, {f['on_fresh_table']} on a fresh table with the same columns"
+                          + (f", the documented rules say {f['expected_by_rules']}" if f.get("expected_by_rules") else ""))
         for e in r["errors"][:1]:
             rep.harness_error(f"{r['id']}: {e}")
         if len(samples) < 6:
@@ -282,6 +312,8 @@ def replay(path):
             except Exception as e:
                 res.append(("rejected", None))
         bad = res[0][0] != res[1][0] or (res[0][0] == "accepted" and res[0][1] != res[1][1])
+        if d.get("expected_by_rules"):
+            bad = bad or res[0][0] != d["expected_by_rules"]
     print("replay ->", bad)
     if bad:
         print(f"VIOLATION property={PROP} replay={path}")
